@@ -37,7 +37,7 @@ def _fd_table():
     return out
 
 
-def _worker(conn, func, cases, start):
+def _worker(conn, func, cases, start, soft):
     """Child process: run cases[start:], reporting (index, 'start') then (index, outcome)."""
     try:
         resource.setrlimit(resource.RLIMIT_AS, (AS_LIMIT, AS_LIMIT))
@@ -58,7 +58,7 @@ def _worker(conn, func, cases, start):
         rss0 = resource.getrusage(resource.RUSAGE_SELF).ru_maxrss
         t0 = time.process_time()
         w0 = time.time()
-        signal.setitimer(signal.ITIMER_REAL, SOFT_SECONDS)
+        signal.setitimer(signal.ITIMER_REAL, soft)
         # what the call returned / raised stays referenced until the file table has been read: a file
         # the loader forgot to close must not be closed for it by the reference count dropping to zero
         keep = None
@@ -92,7 +92,7 @@ def _worker(conn, func, cases, start):
     conn.close()
 
 
-def run_cases(func, cases):
+def run_cases(func, cases, soft=SOFT_SECONDS, hard=HARD_SECONDS):
     """
     Run func(case) for every case in a sandboxed child; returns a list of result dicts
     (same order).  Results of cases that killed the worker have outcome ('crash', signal)
@@ -103,14 +103,14 @@ def run_cases(func, cases):
     start = 0
     while start < len(cases):
         parent, child = ctx.Pipe(duplex=False)
-        p = ctx.Process(target=_worker, args=(child, func, cases, start))
+        p = ctx.Process(target=_worker, args=(child, func, cases, start, soft))
         p.daemon = True
         p.start()
         child.close()
         current = None
         ended = False
         while True:
-            if parent.poll(HARD_SECONDS):
+            if parent.poll(hard):
                 try:
                     i, what, data = parent.recv()
                 except (EOFError, OSError):
@@ -127,7 +127,7 @@ def run_cases(func, cases):
             else:
                 # no message for HARD_SECONDS: the case hangs in native code
                 if current is not None:
-                    results[current] = {"outcome": ("hard_timeout", None), "cpu": HARD_SECONDS, "wall": HARD_SECONDS, "leaked_fds": [], "peak_rss_growth_kb": 0}
+                    results[current] = {"outcome": ("hard_timeout", None), "cpu": hard, "wall": hard, "leaked_fds": [], "peak_rss_growth_kb": 0}
                     start = current + 1
                 try:
                     p.kill()
